@@ -475,7 +475,7 @@ def _pm_worker(args):
     return st, fails
 
 
-def pmap_cases(fn, items, nproc=None, stop_after=20):
+def pmap_cases(fn, items, nproc=None, stop_after=6):
     """Evaluate fn(item, stats) -> failure-dict-or-None over items in a fork
     pool.  Returns (Stats, [failures])."""
     nproc = nproc or NCPU
